@@ -1071,6 +1071,11 @@ class StubsStringGenerator:
             qname = qname or import_qname
 
             if not in_package:
+                # A name without a module part that is no class of the package (e.g. a type that is only known from a
+                # docstring, or the name of a variable) can't be imported from anywhere
+                if len(qname_parts) == 1:
+                    return
+
                 self.classes_outside_package.add(qname)
 
             if qname.replace(".", "/") != self._get_module_id():
